@@ -1050,6 +1050,7 @@ pub struct Sess {
     node_x: Arc<AtomicU32>,
     /// `rule hold <spec>`: publish futures created and not yet polled, by their `pub` spec
     held: Vec<(String, HeldFut)>,
+    unreg_count: usize,
 }
 
 impl Sess {
@@ -1102,6 +1103,7 @@ impl Sess {
             xwant,
             node_x,
             held: vec![],
+            unreg_count: 0,
         }
     }
 
@@ -1402,7 +1404,14 @@ impl Sess {
                         "disable" => h.disable(),
                         "drebirth" => h.rebirth(),
                         _ => {
-                            self.node.unregister_device_named(&format!("d{}", d)).await;
+                            // both entry points: by name, and (every other line) by the handle itself
+                            self.unreg_count += 1;
+                            if self.unreg_count % 2 == 0 {
+                                let h = h.clone();
+                                self.node.unregister_device(h).await;
+                            } else {
+                                self.node.unregister_device_named(&format!("d{}", d)).await;
+                            }
                             self.devs.remove(&d);
                             // no publishes through the handle of a removed incarnation, held ones included
                             let pre = format!("dev {} ", d);
